@@ -502,6 +502,22 @@ func sxPathsInline(fn *ssa.Function, tag string, inline func(*ssa.Function) bool
 						return
 					}
 					s.visits[b]++
+				} else {
+					// the header of a counted loop: each iteration gets a fresh budget for the
+					// undecided branches of its body
+					header := false
+					for _, p := range b.Preds {
+						if b.Dominates(p) {
+							header = true
+						}
+					}
+					if header {
+						for _, x := range b.Parent().Blocks {
+							if x != b && b.Dominates(x) {
+								delete(s.visits, x)
+							}
+						}
+					}
 				}
 				blk := b
 				branch(s, cond, func(ns *sxState, truth bool) {
@@ -1268,6 +1284,10 @@ func (s *sxState) call(c ssa.CallInstruction, deferred bool) sxVal {
 			elems, okBase = append(elems, u.elems...), true
 		case sxConst:
 			okBase = u.c.Value == nil
+		default:
+			if lit, ok := sxSliceElems(base, s.mem); ok { // append to a slice literal
+				elems, okBase = append(elems, lit...), true
+			}
 		}
 		if add, ok := sxSliceElems(more, s.mem); ok && okBase {
 			return sxList{append(elems, add...)}
